@@ -258,8 +258,6 @@ def run_c04(tier, seed, res):
     base = tq.with_patch_options(tq.enumerate_series(2, 2, allow_after_failure=1), 2)
     want = ('rename', 'renameH', 'createN', 'createB', 'deleteN', 'deleteB', 'partial', 'partialB', 'chmod', 'chmodH', '-R', 'fill')
     series = [s for s in base if wsweep.tags_of(s) & set(want)]
-    # a reversed rename is a question of applying (-R honoured for the git rename dialect: C01/C16), not of undoing
-    series = [s for s in series if not any(p.reverse and any(fp.rename for fp in p.fps) for p in s)]
     if tier == 'quick':
         series = [s for s in series if any(not p.ok() for p in s) or any(p.reverse for p in s)]
     cfgs = [{'backup': 'always', 'backup_count': 'all', 'threads': t, 'quiet': True} for t in (1, 2)]
